@@ -161,6 +161,7 @@ CanEdit(S, p, kind) ==
        [] kind = "removeFirst" -> ~IsOp(S, p) /\ Len(DataOf(S, p).b) >= 2
        [] kind = "text" -> Len(DataOf(S, p).b) >= 1 /\ ~S.labelled
        [] kind = "userTerm" -> IsOp(S, p) /\ DataOf(S, p).e = {} /\ Len(DataOf(S, p).b) >= 1
+       [] kind = "userPair" -> IsOp(S, p) /\ DataOf(S, p).e = {} /\ Len(DataOf(S, p).b) >= 1
 Edit(S, p, kind) ==
   LET s == S.hand[p].name IN
   CASE kind = "addBase" -> [S EXCEPT !.store[s].b = Append(@, <<s, S.store[s].nextk>>), !.store[s].ax = Append(@, SmallestFree(@)),
@@ -169,6 +170,8 @@ Edit(S, p, kind) ==
     [] kind = "removeFirst" -> [S EXCEPT !.store[s].b = Tail(@), !.store[s].ax = Tail(@), !.store[s].saved = FALSE]
     [] kind = "text" -> [S EXCEPT !.store[s].txt = @ + 1, !.store[s].saved = FALSE]
     [] kind = "userTerm" -> [S EXCEPT !.store[s].e = {p}, !.store[s].saved = FALSE]
+    \* two additions, the first of which (in list order) is defined as the second: a reference between the user's own terms
+    [] kind = "userPair" -> [S EXCEPT !.store[s].e = {p, p + 50}, !.store[s].saved = FALSE]
 \* the environment makes the source of p read-only
 Lock(S, p) == IF p \in Picts(S) /\ HasData(S, p) THEN [S EXCEPT !.store[S.hand[p].name].locked = TRUE] ELSE S
 \* the source manager announces the pending change of p's source
@@ -183,6 +186,11 @@ CloseSrc(S, p) ==
            S1 == [S EXCEPT !.hand[p].hash = new]
            S2 == IF S.hand[p].hash # new /\ ~S.dnd THEN OnCoreChange(S1, p) ELSE S1
        IN [S2 EXCEPT !.hand[p].linked = FALSE, !.store[s].saved = TRUE]
+\* the environment closes the source without announcing its pending change (SrcClosed only): the handle keeps the hash it saw last,
+\* the environment forgets that anything was pending; the change is noticed when the source is opened again
+DropSrc(S, p) ==
+  IF p \notin Picts(S) \/ ~S.hand[p].linked THEN S
+  ELSE [S EXCEPT !.hand[p].linked = FALSE, !.store[S.hand[p].name].saved = TRUE]
 \* the source manager opens a closed source again: the schema imports it into the pictogram whose handle names it
 OpenSrc(S, p) ==
   IF p \notin Picts(S) \/ ~HasData(S, p) \/ S.hand[p].linked THEN S
@@ -313,6 +321,7 @@ Apply(S, c) ==
     [] c.op = "Save" -> Save(S, c.p)
     [] c.op = "Lock" -> Lock(S, c.p)
     [] c.op = "Close" -> CloseSrc(S, c.p)
+    [] c.op = "Drop" -> DropSrc(S, c.p)
     [] c.op = "Open" -> OpenSrc(S, c.p)
     [] c.op = "Reload" -> Reload(S, c.n)
     [] c.op = "ShiftPict" -> ShiftPict(S, c.p, c.n)
